@@ -39,7 +39,7 @@ def bufstep(prof, quick, thorough, steps=40):
             "shards": {"quick": 8, "thorough": 16},
             # a wedge between Put, a blocked Get and a waiting Diff parks goroutines on mutexes: the bubble never goes
             # quiet and only the stall watchdog sees it
-            "env": {"VKIT_PROFILE": prof}, **({"stall_sig": "C05/stall"} if prof == "C05" else {})}
+            "env": {"VKIT_PROFILE": prof}, **({"stall_sig": prof + "/stall"} if prof in ("C05", "C12") else {})}
 
 
 CHAN_MODEL = ("rapid state machine over bigbuff.Channel inside a synctest bubble (virtual poll ticks): source buffered (cap 1/4) or "
@@ -183,7 +183,8 @@ CONFIG = {
                  "call, after close; invalid inputs must panic. Oracle: first value immediately (len==1 on return, closed+empty if pre-cancelled), <= count values, exact non-decreasing tick "
                  "timestamps, <=1 buffered at every quiescent point, closed after the count-th value or at the first quiescent point after cancellation, <=1 tick forwarded after cancel, "
                  "producer goroutine gone (leak oracle). non-trivial = count>=3, cancellation while the producer is alive and a value still buffered at that instant; distinct = hash of the case."),
-        "jobs": [{"name": "attempt", "test": "TestC20Attempt", "steps": 12, "checks": {"quick": 16000, "thorough": 2400000}, "shards": {"quick": 8, "thorough": 16}, "env": {"VKIT_PROFILE": "C20"}},
+        "jobs": [{"name": "attempt_crowd", "test": "TestC20Crowd", "checks": {"quick": 400, "thorough": 40000}, "shards": {"quick": 2, "thorough": 8}, "stall_sig": "C20/stall"},
+                 {"name": "attempt", "test": "TestC20Attempt", "steps": 12, "checks": {"quick": 16000, "thorough": 2400000}, "shards": {"quick": 8, "thorough": 16}, "env": {"VKIT_PROFILE": "C20"}},
                  {"name": "attempt_free", "test": "TestC20Free", "checks": {"quick": 4000, "thorough": 600000}, "shards": {"quick": 4, "thorough": 16}},
                  # real clock, several (overlapping) attempts per case; count/closure facts only, hangs are the stall watchdog's business
                  {"name": "attempt_real", "test": "TestC20Real", "checks": {"quick": 240, "thorough": 24000}, "shards": {"quick": 8, "thorough": 16}, "stall_sig": "C20/stall"},
@@ -293,7 +294,8 @@ CONFIG = {
                 "against the sequential (put, committed, uncommitted) model by porcupine; non-trivial = operations of different goroutines overlapped. "
                 "Plus range_faulty: package Range over a scripted faulty Consumer (Get/Commit/Rollback failures at drawn calls, callback continue/stop/panic/cancel, ctx nil/live/cancelled): "
                 "the recorded call order must be Get, fn, Commit per item with Rollback exactly on failure; non-trivial = the range ended by a Get/Commit failure or a panic.",
-        "jobs": [{"name": "range_faulty", "test": "TestC02RangeFaulty", "checks": {"quick": 40000, "thorough": 2000000}, "shards": {"quick": 2, "thorough": 8}},
+        "jobs": [{"name": "commitrace", "test": "TestConsCommitRace", "checks": {"quick": 400, "thorough": 40000}, "shards": {"quick": 4, "thorough": 16}, "stall_sig": "C02/stall"},
+                 {"name": "range_faulty", "test": "TestC02RangeFaulty", "checks": {"quick": 40000, "thorough": 2000000}, "shards": {"quick": 2, "thorough": 8}},
                  {"name": "range_faulty_go_default", "go": "default", "test": "TestC02RangeFaulty", "checks": {"quick": 20000, "thorough": 1000000}, "shards": {"quick": 2, "thorough": 8}},
                  {"name": "conslin", "test": "TestConsLin", "checks": {"quick": 30000, "thorough": 1500000}, "shards": {"quick": 6, "thorough": 16}, "stall_sig": "C02/stall"},
                  buffree("C02", 12000, 600000), bufstep("C02", 24000, 800000)],
@@ -326,7 +328,8 @@ CONFIG = {
                 " Plus a gate probe using the verif instrumentation points inside a bubble: Get's async waiter or a direct WaitCond call is stopped between predicate and park, the "
                 "waking event (cancel / Put / Close / set+Broadcast) is issued inside that window (optionally after the cancellation watcher reached its wake-up point, then 0-200 yields), "
                 "then the gate opens; at quiescence the waiter must have returned with the right outcome; non-trivial = the gate was hit.",
-        "jobs": [buffree("C05", 12000, 600000), bufstep("C05", 24000, 800000), waitcond("C05", 12000, 400000),
+        "jobs": [{"name": "get_crowd", "test": "TestC05Crowd", "checks": {"quick": 400, "thorough": 40000}, "shards": {"quick": 2, "thorough": 8}, "stall_sig": "C05/stall"},
+                 buffree("C05", 12000, 600000), bufstep("C05", 24000, 800000), waitcond("C05", 12000, 400000),
                  {"name": "probe", "test": "TestC05Probe", "checks": {"quick": 8000, "thorough": 200000}, "shards": {"quick": 4, "thorough": 16}}],
     },
     "C12": {
@@ -334,7 +337,8 @@ CONFIG = {
                 " The goroutine-leak oracles of the Exclusive, context-combinator, Workers, Worker, ExponentialRetry and LinearAttempt engines (see C09/C10, C16, C14, C17, C18, C20) "
                 "are run under this property as well: after every handle is closed / context cancelled / call returned, the bubble must hold no other goroutine. "
                 "conslin (see C02) runs with a concurrent Close of the shared consumer: Close must return (once nothing is uncommitted), Done closed, Diff unregistered; a wedged program is a violation.",
-        "jobs": [{"name": "closerace", "test": "TestBufCloseRace", "checks": {"quick": 800, "thorough": 80000}, "shards": {"quick": 8, "thorough": 16}, "stall_sig": "C12/stall"},
+        "jobs": [{"name": "commitrace", "test": "TestConsCommitRace", "checks": {"quick": 400, "thorough": 40000}, "shards": {"quick": 4, "thorough": 16}, "stall_sig": "C12/stall"},
+                 {"name": "closerace", "test": "TestBufCloseRace", "checks": {"quick": 800, "thorough": 80000}, "shards": {"quick": 8, "thorough": 16}, "stall_sig": "C12/stall"},
                  buffree("C12", 12000, 600000), bufstep("C12", 24000, 800000), chanstep("C12", 12000, 400000), waitcond("C12", 8000, 300000),
                  {"name": "conslin_close", "test": "TestConsLin", "checks": {"quick": 24000, "thorough": 800000}, "shards": {"quick": 4, "thorough": 8},
                   "env": {"VKIT_PROFILE": "C12"}, "stall_sig": "C12/stall"},
